@@ -53,6 +53,40 @@ let () =
              Buffer.add_string buf (Printf.sprintf " T %d TV" (List.length tv));
              List.iter (fun ((a, b), c) -> Buffer.add_string buf (Printf.sprintf " %d %d %d" (int_of_z a) (int_of_z b) (int_of_z c))) tv);
         print_endline (Buffer.contents buf)
+      end else if toks.(0) = "S" && Array.length toks > 2 && toks.(2) = "NV" then begin
+        (* S id NV nv T nt tris.. A ne (u v added).. [OUT ...]  -> the ported Subdivide on the same input *)
+        let id = toks.(1) in
+        let nv = int_of_string toks.(3) and nt = int_of_string toks.(5) in
+        let t0 = 6 in
+        let tris = List.init nt (fun i -> ((z_of_int (int_of_string toks.(t0 + 3 * i)), z_of_int (int_of_string toks.(t0 + 3 * i + 1))),
+                                           z_of_int (int_of_string toks.(t0 + 3 * i + 2)))) in
+        let a0 = t0 + 3 * nt in
+        let ne = int_of_string toks.(a0 + 1) in
+        let tbl = Hashtbl.create 64 in
+        for i = 0 to ne - 1 do
+          Hashtbl.replace tbl (int_of_string toks.(a0 + 2 + 3 * i), int_of_string toks.(a0 + 3 + 3 * i)) (int_of_string toks.(a0 + 4 + 3 * i))
+        done;
+        let added u v = match Hashtbl.find_opt tbl (int_of_z u, int_of_z v) with Some x -> z_of_int x | None -> Z0 in
+        let buf = Buffer.create 4096 in
+        Buffer.add_string buf (Printf.sprintf "S %s" id);
+        (match subdivide_tris_f (z_of_int nv) tris added with
+         | None -> Buffer.add_string buf " UNDEFINED"
+         | Some out ->
+           Buffer.add_string buf (Printf.sprintf " OUT %d" (List.length out));
+           List.iter (fun ((a, b), c) -> Buffer.add_string buf (Printf.sprintf " %d %d %d" (int_of_z a) (int_of_z b) (int_of_z c))) out;
+           (match subdivide_numvert_f (z_of_int nv) tris added with
+            | Some n -> Buffer.add_string buf (Printf.sprintf " NV2 %d" (int_of_z n))
+            | None -> Buffer.add_string buf " NV2 UNDEFINED");
+           (match sub_parts_f (z_of_int nv) tris added with
+            | Some ps ->
+              let own = vert_owner_f (z_of_int nv) tris added ps in
+              let n2 = match subdivide_numvert_f (z_of_int nv) tris added with Some n -> int_of_z n | None -> 0 in
+              let arr = Array.make (max n2 1) (-9) in
+              List.iter (fun (v, (t, _)) -> let vi = int_of_z v in if vi >= 0 && vi < n2 then arr.(vi) <- int_of_z t) own;
+              Buffer.add_string buf " OWN";
+              for v = 0 to n2 - 1 do Buffer.add_string buf (Printf.sprintf " %d" arr.(v)) done
+            | None -> ()));
+        print_endline (Buffer.contents buf)
       end else if toks.(0) = "O" then begin
         (* O a b c d I .. S s0 s1 s2 s3 V nv T nt TV ... VB ... C x *)
         let a = toks.(1) and b = toks.(2) and c = toks.(3) and d = toks.(4) in
